@@ -78,6 +78,12 @@ func (m DistributedExecutionOptimizer) Optimize(plan parser.Expr) parser.Expr {
 		// If the current node is an aggregation, distribute the operation and
 		// stop the traversal.
 		if aggr, ok := (*current).(*parser.AggregateExpr); ok {
+			// A parameter that reads series, as in topk(scalar(x), y), has to be
+			// evaluated over all partitions at once: on a single partition x may
+			// be missing or incomplete. Keep such aggregations local.
+			if aggr.Param != nil && readsSeries(aggr.Param) {
+				return true
+			}
 			localAggregation := aggr.Op
 			if aggr.Op == parser.COUNT {
 				localAggregation = parser.SUM
@@ -117,6 +123,19 @@ func (m DistributedExecutionOptimizer) makeSubQueries(current *parser.Expr, engi
 		}
 	}
 	return remoteQueries
+}
+
+// readsSeries reports whether expr contains a selector.
+func readsSeries(expr parser.Expr) bool {
+	found := false
+	parser.Inspect(expr, func(node parser.Node, _ []parser.Node) error {
+		switch node.(type) {
+		case *parser.VectorSelector, *parser.MatrixSelector:
+			found = true
+		}
+		return nil
+	})
+	return found
 }
 
 func isDistributive(expr *parser.Expr) bool {
